@@ -3,8 +3,6 @@
 package cl
 
 import (
-	"io"
-
 	"github.com/ohler55/slip"
 	"github.com/ohler55/slip/pp"
 )
@@ -48,7 +46,7 @@ func (f *Disassemble) Call(s *slip.Scope, args slip.List, depth int) slip.Object
 	slip.CheckArgCount(s, depth, f, args, 1, 1)
 	ansi := s.Get("*print-ansi*") != nil
 	right := slip.RightMarginValue(s.Get("*print-right-margin*"), slip.DefaultRightMargin)
-	w := s.Get("*standard-output*").(io.Writer)
+	w := s.WriterVar("*standard-output*", depth)
 	var buf []byte
 	a := args[0]
 Top:
